@@ -87,6 +87,8 @@ class H:
         return self.mode == 'sym'
 
     def _concrete_value(self, name, lo, hi, default=None):
+        if name in self.used and name not in self.given:
+            return self.used[name]          # the same input name always denotes the same value
         if name in self.given:
             v = float(self.given[name])
             # a model value outside the declared range (possible for angles rebuilt from an
@@ -235,9 +237,16 @@ class H:
         """structural identity of two results (same DAG => bitwise equal floats).  Falls back to
         R-equality obligations where the DAGs differ."""
         if self.mode != 'sym':
-            A, B = np.asarray(a, dtype=float), np.asarray(b, dtype=float)
+            tov = np.vectorize(lambda x: x.val if isinstance(x, Term) else float(x), otypes=[float])
+            A = tov(np.asarray(a, dtype=object)) if np.size(a) else np.asarray(a, dtype=float)
+            B = tov(np.asarray(b, dtype=object)) if np.size(b) else np.asarray(b, dtype=float)
+            self.observed.append((label, A))
             self.checked += 1
-            if A.shape != B.shape or not np.array_equal(A, B):
+            if self.mode == 'concolic':
+                ok = A.shape == B.shape and bool(np.all(np.abs(A - B) <= 1e-9 * np.maximum(1.0, np.abs(A))))
+            else:
+                ok = A.shape == B.shape and np.array_equal(A, B)
+            if not ok:
                 self._fail(label, f'not bitwise equal: {A!r} vs {B!r}')
             return
         A, B = np.asarray(a, dtype=object), np.asarray(b, dtype=object)
